@@ -65,10 +65,12 @@ func (b *WALEntriesBuffer) Count() int {
 
 // CreateResponse creates a WALStreamResponse from the current buffer
 func (b *WALEntriesBuffer) CreateResponse() *replication_proto.WALStreamResponse {
+	// The buffered payloads are the serialized entries as they are: nothing here compresses
+	// them, so the response must not claim a codec (the replica would fail to decode it)
 	return &replication_proto.WALStreamResponse{
 		Entries:    b.entries,
-		Compressed: b.compression != replication_proto.CompressionCodec_NONE,
-		Codec:      b.compression,
+		Compressed: false,
+		Codec:      replication_proto.CompressionCodec_NONE,
 	}
 }
 
